@@ -11,6 +11,7 @@
 package main
 
 import (
+	"encoding/json"
 	"flag"
 	"fmt"
 	"os"
@@ -19,6 +20,7 @@ import (
 	"runtime/metrics"
 	"runtime/pprof"
 	"sort"
+	"strconv"
 	"strings"
 	"sync"
 	"sync/atomic"
@@ -75,14 +77,17 @@ type job struct {
 	comments int // 0 none, 1 junction boundaries only, 2 every boundary
 	mutants  bool
 	layouts  []int
-	cLayouts []int    // layouts in which comments are inserted
-	pct      bool     // also insert the comment text with a per cent sign (pretty layout)
-	bytes    *byteJob // non-nil: a job of the byte-level variant family (bytes.go)
+	cLayouts []int     // layouts in which comments are inserted
+	pct      bool      // also insert the comment text with a per cent sign (pretty layout)
+	breaks   bool      // also insert a line break / an empty line (no comment) at every boundary
+	bytes    *byteJob  // non-nil: a job of the byte-level variant family (bytes.go)
+	entry    *entryJob // non-nil: a job of the entry-point family (entry.go)
 }
 
 type counters struct {
 	programs, baseCases, commentCases, commentAccepted, commentRejected int64
 	mutants, mutAccepted, mutRejected, mutIdentity                      int64
+	wsCases, wsAccepted, wsRejected                                     int64
 	formattedChanged                                                    int64
 }
 
@@ -136,7 +141,7 @@ func evalProgram(w int, j job) {
 		texts[i] = t.Role
 	}
 	sl := slots[w]
-	strict := j.fam != "edge" && j.fam != "whole"
+	strict := j.fam != "edge" && j.fam != "edge2" && j.fam != "whole"
 	run := func(what, src string) verdict {
 		sl.src.Store(src)
 		sl.what.Store(what)
@@ -152,6 +157,7 @@ func evalProgram(w int, j job) {
 		return v
 	}
 	baseFails := map[int]map[string]bool{}
+	baseDetail := map[int]map[string]string{} // layout -> oracle -> detail of the base failure
 	for _, lay := range j.layouts {
 		src := render(toks, lay, nil)
 		v := run("base", src)
@@ -162,6 +168,11 @@ func evalProgram(w int, j job) {
 			atomic.AddInt64(&cnt.formattedChanged, 1)
 		}
 		baseFails[lay] = map[string]bool{}
+		baseDetail[lay] = map[string]string{}
+		for _, f := range v.Fails {
+			baseFails[lay][f.Oracle] = true
+			baseDetail[lay][f.Oracle] = f.Detail
+		}
 		if j.fam == "whole" {
 			// whether a position takes the literal form is decided by the real parser
 			switch {
@@ -198,8 +209,25 @@ func evalProgram(w int, j job) {
 			coll.add("valid-rejected|"+kinds+"|"+shape, len(toks), rc, texts...)
 			baseFails[lay]["valid-rejected"] = true
 		}
+		sibFails := map[string]bool{}
+		if j.fam == "edge2" && len(v.Fails) > 0 && !anyCrashLike(v.Fails) {
+			// differential attribution (as in bytes.go): the same annotation group with ONE entry whose value
+			// is the empty literal is a program of the whole-value family; when it is formatted to the very
+			// same text, an oracle that fails for both fails for the listed whole-value-empty cause (the group
+			// prints nothing) — counted, not a class of the empty group
+			sib := strings.Replace(src, "()", "(\nk: \"\"\n)", 1)
+			if vs := run("base", sib); vs.Accepted && vs.Formatted == v.Formatted {
+				for _, f := range vs.Fails {
+					sibFails[f.Oracle] = true
+				}
+			}
+		}
 		for _, f := range v.Fails {
 			baseFails[lay][f.Oracle] = true
+			if sibFails[f.Oracle] {
+				rep.Count("empty_group_failures_identical_to_the_whole_value_empty_sibling:"+f.Oracle, 1)
+				continue
+			}
 			rc := replayCase{Src: src, Oracle: f.Oracle, Detail: f.Detail, Family: j.fam, Shape: shape, Layout: layoutNames[lay], GoTest: goTest(src)}
 			if j.fam == "values" {
 				coll.add("values|"+f.Oracle+"|"+shape, len(toks), rc)
@@ -224,10 +252,21 @@ func evalProgram(w int, j job) {
 						continue
 					}
 				}
-				for k := ckOwnLine; k < ckEnd; k++ {
+				if j.fam == "edge2" && !(inEmptyGroup(roleAt(toks, at-1)) || inEmptyGroup(roleAt(toks, at))) {
+					continue // the other boundaries of these programs are those of the inner family
+				}
+				for k := ckOwnLine; k < ckEndAll; k++ {
+					ws := k > ckEnd // a white-space insertion (line break / empty line), no comment
+					if k == ckEnd || (ws && !j.breaks) {
+						continue
+					}
+					raw := "comment|"
+					if ws {
+						raw = "break|"
+					}
 					plainFails := map[string]bool{}
 					for _, pct := range []bool{false, true} {
-						if pct && !(j.pct && lay == layPretty) {
+						if pct && !(j.pct && lay == layPretty && !ws) {
 							continue
 						}
 						ins := insertion{At: at, Kind: k, Pct: pct}
@@ -236,24 +275,52 @@ func evalProgram(w int, j job) {
 						}
 						src := render(toks, lay, &ins)
 						v := run("comment", src)
-						atomic.AddInt64(&cnt.commentCases, 1)
 						rep.Eval(1)
+						if ws {
+							atomic.AddInt64(&cnt.wsCases, 1)
+						} else {
+							atomic.AddInt64(&cnt.commentCases, 1)
+						}
 						if !v.Accepted && len(v.Fails) == 0 {
+							if ws {
+								atomic.AddInt64(&cnt.wsRejected, 1)
+								rep.Count("line_break_rejected_by_parser:"+ckNames[k]+"|after="+roleAt(toks, at-1)+"|before="+roleAt(toks, at), 1)
+								continue
+							}
 							atomic.AddInt64(&cnt.commentRejected, 1)
 							if !pct {
 								rep.Count("comment_rejected_by_parser:"+ckNames[k]+"|after="+roleAt(toks, at-1)+"|before="+roleAt(toks, at), 1)
 							}
 							continue
 						}
-						atomic.AddInt64(&cnt.commentAccepted, 1)
+						if ws {
+							atomic.AddInt64(&cnt.wsAccepted, 1)
+						} else {
+							atomic.AddInt64(&cnt.commentAccepted, 1)
+						}
 						rep.Nontrivial("comment|" + src)
 						for _, f := range v.Fails {
-							if baseFails[lay][f.Oracle] {
-								continue // the program fails this oracle without any comment: reported there
+							if j.fam == "whole" && baseFails[lay]["ast-changed"] && strings.HasPrefix(f.Oracle, "comment-lost") {
+								// the statement is dropped with its empty value (listed: whole-value-empty|ast-changed) and
+								// takes the comment along: that cause, counted
+								rep.Count("whole_value_empty_comment_lost_with_the_dropped_statement", 1)
+								continue
+							}
+							if baseFails[lay][f.Oracle] && (f.Oracle != "ast-changed" || baseDetail[lay][f.Oracle] == f.Detail) {
+								// the program fails this oracle without any comment: reported there. The digests of
+								// the ast-changed oracle do not contain comments, so for that oracle only the very
+								// same difference is the base failure; another difference is the comment's doing.
+								continue
 							}
 							ctx := ckNames[k] + "|after=" + roleAt(toks, at-1) + "|before=" + roleAt(toks, at)
-							if j.fam == "edge" {
+							if j.fam == "edge" || j.fam == "edge2" {
 								ctx += "|edge" // positions inside an empty container are a class of their own
+							}
+							if j.fam == "routes" {
+								ctx += "|routes" // positions of a program with an optional route part ("()", "returns ()", ";")
+							}
+							if j.fam == "whole" {
+								ctx += "|whole"
 							}
 							rc := replayCase{Src: src, Oracle: f.Oracle, Detail: f.Detail, Family: j.fam, Shape: shape, Layout: layoutNames[lay],
 								Comment: fmt.Sprintf("%s at boundary %d (after %s, before %s)", ckNames[k], at, roleAt(toks, at-1), roleAt(toks, at)), GoTest: goTest(src)}
@@ -268,7 +335,7 @@ func evalProgram(w int, j job) {
 							if f.Oracle == "comment-lost" {
 								plainFails["comment-changed"] = true // a comment that is dropped cannot be mangled
 							}
-							coll.add("comment|"+f.Oracle+"|"+ctx, len(toks), rc)
+							coll.add(raw+f.Oracle+"|"+ctx, len(toks), rc)
 						}
 					}
 				}
@@ -300,6 +367,11 @@ func evalProgram(w int, j job) {
 					rep.Nontrivial("mutant|" + msrc)
 				}
 				for _, f := range v.Fails {
+					if v.Accepted && baseFails[layPretty][f.Oracle] && !anyCrashLike([]failure{f}) {
+						// the unmutated program fails this oracle already: that is the base class, not the mutation
+						rep.Count("accepted_mutants_failing_like_their_base_program", 1)
+						continue
+					}
 					next := "EOF"
 					if at+1 < len(ps) {
 						next = ps[at+1].Type.String()
@@ -355,7 +427,9 @@ func main() {
 	maxToks := flag.Int("maxtoks", 0, "debug: only programs of at most this many tokens")
 	flag.BoolVar(&dryRun, "dry", false, "enumerate and count only (no evaluation)")
 	prof := flag.String("cpuprofile", "", "write a CPU profile")
-	onlyFam := flag.String("fam", "", "debug: only the jobs of this family (values|whole|edge|bytes|inner|seq)")
+	flag.StringVar(&dumpPos, "dumppos", "", "debug: write class -> failing positions (JSON) to this file")
+	probe := flag.String("src", "", "debug: evaluate this one source text (Go-quoted or plain; '@file' reads a file) and print the verdict")
+	onlyFam := flag.String("fam", "", "debug: only the jobs of this family (values|whole|edge|edge2|routes|entry|bytes|inner|seq)")
 	cfg = vlib.ParseFlags("C20", "exploration")
 	if *prof != "" {
 		f, _ := os.Create(*prof)
@@ -363,6 +437,10 @@ func main() {
 		stopProfile = pprof.StopCPUProfile
 	}
 	rep = vlib.NewReport(cfg)
+	if *probe != "" {
+		probeSource(*probe)
+		return
+	}
 	if cfg.Replay != "" {
 		replay()
 		return
@@ -382,10 +460,37 @@ func main() {
 		jobs = append(jobs, job{fam: "values", prog: program{Family: "values", Stmts: []stmt{s}}, layouts: both})
 	}
 	for _, s := range wholeStmts() {
-		jobs = append(jobs, job{fam: "whole", prog: program{Family: "whole", Stmts: []stmt{s}}, layouts: both})
+		j := job{fam: "whole", prog: program{Family: "whole", Stmts: []stmt{s}}, layouts: both}
+		if strings.HasPrefix(s.Shape, "empty@") {
+			// a value that prints nothing: every comment / line-break insertion around it as well
+			j.comments, j.cLayouts, j.breaks = 2, both, true
+		}
+		jobs = append(jobs, j)
 	}
 	for _, s := range edgeStmts() {
-		jobs = append(jobs, job{fam: "edge", prog: program{Family: "edge", Stmts: []stmt{s}}, comments: 2, mutants: true, layouts: both, cLayouts: both})
+		jobs = append(jobs, job{fam: "edge", prog: program{Family: "edge", Stmts: []stmt{s}}, comments: 2, mutants: true, layouts: both, cLayouts: both, breaks: true})
+	}
+	// empty annotation groups, and the route forms that print nothing / are optional (routes.go)
+	for _, s := range edgeStmts2() {
+		jobs = append(jobs, job{fam: "edge2", prog: program{Family: "edge2", Stmts: []stmt{s}}, comments: 2, mutants: true, layouts: both, cLayouts: both, breaks: true})
+	}
+	for _, s := range routeStmts1(cfg.Thorough()) {
+		jobs = append(jobs, job{fam: "routes", prog: program{Family: "routes", Stmts: []stmt{s}}, comments: 2, mutants: true, layouts: both, cLayouts: both, pct: true, breaks: true})
+	}
+	for _, s := range routeStmts2(cfg.Thorough()) {
+		j := job{fam: "routes", prog: program{Family: "routes", Stmts: []stmt{s}}, comments: 1, mutants: true, layouts: both, cLayouts: both}
+		if cfg.Thorough() {
+			j.comments = 2
+		}
+		jobs = append(jobs, j)
+	}
+	for _, p := range routeSeqPrograms() {
+		jobs = append(jobs, job{fam: "routes", prog: p, comments: 1, layouts: both, cLayouts: []int{layPretty}})
+	}
+	// secondary entry points / input forms (entry.go)
+	entryJobs := entryPrograms(bytePrograms(inner, false))
+	for i := range entryJobs {
+		jobs = append(jobs, job{fam: "entry", entry: &entryJobs[i]})
 	}
 	// byte-level variants (bytes.go): cheap (most variants are rejected after a few tokens) and queued
 	// before the large families, so the soft time box can never cut them
@@ -398,6 +503,7 @@ func main() {
 	for _, s := range inner {
 		j := job{fam: "inner", prog: program{Family: "inner", Stmts: []stmt{s}}, comments: 2, mutants: true, layouts: both, cLayouts: both}
 		j.pct = maxUnit(s) <= 1
+		j.breaks = maxUnit(s) <= 1 // line break / empty line at every boundary of the one-unit statements
 		if !cfg.Thorough() && maxUnit(s) >= 2 {
 			// statements with two fields / routes / type expressions: their inner boundaries are covered by the
 			// one-unit statements; quick inserts comments only around the junctions between units
@@ -419,6 +525,7 @@ func main() {
 		case len(p.Stmts) <= 2:
 			j.comments = 2
 			j.cLayouts = both
+			j.breaks = true
 		case len(p.Stmts) == 3:
 			j.comments = 1 // junction boundaries only; every boundary in the thorough tier
 			if cfg.Thorough() {
@@ -491,6 +598,8 @@ func main() {
 				}
 				if jobs[i].bytes != nil {
 					evalBytes(w, jobs[i].bytes)
+				} else if jobs[i].entry != nil {
+					evalEntry(w, jobs[i].entry)
 				} else {
 					evalProgram(w, jobs[i])
 				}
@@ -504,11 +613,13 @@ func main() {
 		if n > int64(len(jobs)) {
 			n = int64(len(jobs))
 		}
-		rep.NotExhaustive(fmt.Sprintf("soft time box reached after %d of %d programs (values, edge and byte-level families are enumerated first and were %s; the inner family comes next and was %s)", n, len(jobs),
+		rep.NotExhaustive(fmt.Sprintf("soft time box reached after %d of %d programs (values, whole-value, edge, routes, entry-point and byte-level families are enumerated first and were %s; the inner family comes next and was %s)", n, len(jobs),
 			map[bool]string{true: "complete", false: "incomplete"}[n > int64(nFirst)],
 			map[bool]string{true: "complete", false: "incomplete"}[n > int64(nFirst+len(inner))]))
 	}
 	reportByteCounters(byteJobs)
+	reportEntryCounters(len(entryJobs))
+	entryCleanup()
 	finish(len(inner), len(alpha), seqLen, *dump, expired.Load())
 }
 
@@ -587,6 +698,7 @@ func watchdog(done chan struct{}) {
 // finish turns the collected raw keys into cause classes and reports them smallest first.
 var stopProfile = func() {}
 var dryRun bool
+var dumpPos string // debug: write the failing-position list of every class to this file
 var dryBytes int64
 
 func finish(nInner, nAlpha, seqLen int, dump, partial bool) {
@@ -606,7 +718,16 @@ func finish(nInner, nAlpha, seqLen int, dump, partial bool) {
 			fmt.Printf("RAW %6d size=%3d %s\n      src=%q\n      %s\n", f.count, f.size, f.key, f.rc.Src, f.rc.Detail)
 		}
 	}
-	for _, f := range orderUnknownFirst(classify(fs, partial, cfg.Findings), cfg.Findings) {
+	classes := classify(fs, partial, cfg.Findings)
+	if dumpPos != "" {
+		m := map[string][]string{}
+		for _, f := range classes {
+			m[f.key] = f.rc.Positions
+		}
+		b, _ := json.MarshalIndent(m, "", " ")
+		os.WriteFile(dumpPos, b, 0o644)
+	}
+	for _, f := range orderUnknownFirst(classes, cfg.Findings) {
 		desc := fmt.Sprintf("%s: %s | source %q", f.rc.Oracle, clip(f.rc.Detail, 300), f.rc.Src)
 		if len(f.rc.Positions) > 0 {
 			desc += fmt.Sprintf(" | %d failing positions: %s", len(f.rc.Positions), strings.Join(f.rc.Positions, " "))
@@ -620,19 +741,28 @@ func finish(nInner, nAlpha, seqLen int, dump, partial bool) {
 	rep.Count("comment_cases", int(cnt.commentCases))
 	rep.Count("comment_cases_accepted_by_parser", int(cnt.commentAccepted))
 	rep.Count("comment_cases_rejected_by_parser", int(cnt.commentRejected))
+	rep.Count("line_break_cases(line break / empty line inserted at a token boundary)", int(cnt.wsCases))
+	rep.Count("line_break_cases_accepted_by_parser", int(cnt.wsAccepted))
+	rep.Count("line_break_cases_rejected_by_parser", int(cnt.wsRejected))
 	rep.Count("mutants", int(cnt.mutants))
 	rep.Count("mutants_rejected(error returned)", int(cnt.mutRejected))
 	rep.Count("mutants_accepted(still valid: full oracle applied)", int(cnt.mutAccepted))
 	rep.Count("mutants_identity_skipped", int(cnt.mutIdentity))
 	rep.Scenario("family_inner", fmt.Sprintf("%d single statements: every inner shape of every statement kind", nInner))
 	rep.Scenario("family_whole", fmt.Sprintf("%d programs: a literal that is empty / one blank / two blanks / a tab / blank+tab as the WHOLE value, string and raw form, at the 8 string positions, alone / next to a non-blank sibling / as every value of the group", len(wholeStmts())))
+	rep.Scenario("family_routes", fmt.Sprintf("%d one-route services with an optional route part (request absent | () | (Req)) x (response absent | returns () | returns (Resp) | returns ([]*Resp)) x (';' or not), every combination with an empty body or a semicolon, every comment / line-break insertion; %d two-route services (each combination before a route with / without @doc and after a route); %d two-statement programs (the representative service next to every statement of the sequence alphabet)",
+		len(routeStmts1(cfg.Thorough())), len(routeStmts2(cfg.Thorough())), len(routeSeqPrograms())))
+	rep.Scenario("family_edge2", "empty annotation groups: '@server ()' before a service without / with a route, '@doc ()' before a route; every comment / line-break insertion next to the group")
+	rep.Scenario("family_line_breaks", "a line break and an empty line (no comment) inserted at every token boundary of: the one-unit statements of the inner family, the routes / edge / edge2 / empty whole-value programs, all sequences of <= 2 statements; both layouts")
 	rep.Scenario("family_seq", fmt.Sprintf("all sequences of 1..%d statements over %d representative statements", seqLen, nAlpha))
-	rep.SetRule("evaluation = one source text (program x layout, + one comment insertion, or + one token mutation, or one byte-level variant: prefix / suffix / byte deletion / byte duplication / byte insertion, each distinct text once) pushed through the real scanner/parser/formatter; " +
+	rep.SetRule("evaluation = one source text (program x layout, + one comment insertion, or + one line-break / empty-line insertion, or + one token mutation, or one source through the secondary entry points (format.File, parser.New input forms), or one byte-level variant: prefix / suffix / byte deletion / byte duplication / byte insertion, each distinct text once) pushed through the real scanner/parser/formatter; " +
 		"distinct_nontrivial = distinct source texts that are either accepted by the real parser and went through format/parse/format (valid programs and comment variants) " +
 		"or rejected mutants / byte-level variants that exercised the error paths; comment variants the parser rejects are counted separately and are not non-trivial")
 	rep.Assume("white space inside a comment may differ after formatting (runs of blanks / tabs / line breaks inside a comment compare equal to one blank); a failing accepted byte-level variant is attributed by a differential test (normalise the feature, the failure disappears) to the family that enumerates its cause exhaustively: TAB inside a literal (values family), comment position (comment family), empty literal (outside the domain)")
 	rep.Assume("validity of a comment position is decided by the real parser: a comment variant the parser rejects is not a valid source and only the no-crash demand applies to it")
 	rep.Assume("containers that declare nothing (info(), import(), type(), '()' bodies) may be dropped by the formatter; empty and white-space-only string values are enumerated by the whole-value family (whole.go) only")
+	rep.Assume("the ';' after a route and bodies that declare nothing ('()', 'returns ()', '@server ()', '@doc ()') are not part of the API description: the formatter may drop them (token comparison and digest leave them out)")
+	rep.Assume("every oracle judges every case independently; a failure is attributed to a listed class only by position (the same oracle fails at the same (placement, role, role) position of the older families) or by a differential test (the sibling program of the whole-value family is formatted to the very same text); in a run cut by the time box a position outside the listed position set of a class is reported, positions inside it are the listed class")
 	rep.Assume("an empty source is outside the domain (scanner.MustNewScanner log.Fatal()s on it by design)")
 	rep.Finish()
 }
@@ -652,7 +782,28 @@ func replay() {
 	}
 	fmt.Printf("replay class=%s\nsource:\n%s\n--- expected: oracle %q holds\n", class, rc.Src, rc.Oracle)
 	slots = []*slot{{}}
-	v := checkSource(rc.Src, rc.Family != "edge" && rc.Mutation == "")
+	if rc.Family == "entry" {
+		// a case of the entry-point family: through format.File / the input forms of parser.New again
+		slots[0].src.Store("")
+		slots[0].what.Store("")
+		evalEntry(0, &entryJob{shape: rc.Shape, src: rc.Src})
+		entryCleanup()
+		still := false
+		for k, f := range coll.m {
+			fmt.Printf("--- observed: %s: %s\n", k, f.rc.Detail)
+			if strings.HasSuffix(class, strings.Join(strings.Fields(strings.TrimPrefix(k, "entry|")), "_")) || strings.HasSuffix(k, "|"+rc.Oracle) {
+				still = true
+			}
+		}
+		cfg.Evidence = ""
+		if still {
+			rep.Violation(class, rc.Oracle+": "+rc.Detail, rc)
+		} else {
+			fmt.Println("--- observed: the oracle holds now")
+		}
+		rep.Finish()
+	}
+	v := checkSource(rc.Src, rc.Family != "edge" && rc.Family != "edge2" && rc.Mutation == "")
 	fmt.Printf("accepted by parser: %v\nformatted:\n%s\n", v.Accepted, v.Formatted)
 	still := false
 	for _, f := range v.Fails {
@@ -676,3 +827,37 @@ func replay() {
 
 var _ = os.Exit
 var _ = strings.TrimSpace
+
+// probeSource (debug flag -src): one source through every oracle, nothing is written.
+func probeSource(arg string) {
+	src := arg
+	if strings.HasPrefix(arg, "@") {
+		b, err := os.ReadFile(arg[1:])
+		if err != nil {
+			vlib.Fatal("%v", err)
+		}
+		src = string(b)
+	} else if u, err := strconv.Unquote(arg); err == nil {
+		src = u
+	}
+	slots = []*slot{{}}
+	v := checkSource(src, true)
+	fmt.Printf("source:\n%s\n--- accepted by parser: %v\n--- formatted:\n%s\n", src, v.Accepted, v.Formatted)
+	if v.Accepted && v.Formatted != "" {
+		z, _, _ := realFormat(v.Formatted)
+		fmt.Printf("--- formatted twice:\n%s\n", z)
+	}
+	if !v.Accepted {
+		_, err, _ := realParse(src)
+		fmt.Printf("--- parser error: %v\n", err)
+	}
+	for _, f := range v.Fails {
+		fmt.Printf("--- FAILS %s: %s\n", f.Oracle, f.Detail)
+	}
+	os.Exit(0)
+}
+
+// inEmptyGroup: the role belongs to an annotation group ("@server (...)", "@doc (...)").
+func inEmptyGroup(role string) bool {
+	return strings.HasPrefix(role, "atserver.") || strings.HasPrefix(role, "atdocg.")
+}
